@@ -44,9 +44,15 @@ func (fr *Frame) applyContract(s *State, c *Contract, callee *types.Func, recv *
 	pre := s.clone()
 	// frame
 	if c.Pure || (c.HasFrame && len(c.Assigns) == 0) {
-		// nothing changes
+		// nothing that existed before the call changes; objects returned by the callee may be freshly allocated
+		if rh := fr.eng.resultHeaps(sig); len(rh) > 0 {
+			old := s.next
+			s.next = fr.vc.declare("next", "Int")
+			s.assume(fmt.Sprintf("(>= %s %s)", s.next, old))
+			fr.extendHeaps(s, rh, old)
+		}
 	} else if !c.HasFrame {
-		s.havocAll()
+		fr.havocEverything(s)
 	} else {
 		for _, d := range c.Assigns {
 			if err := fr.havocDesignator(s, pre, c, callee, d, names, cpkg); err != nil {
@@ -57,6 +63,9 @@ func (fr *Frame) applyContract(s *State, c *Contract, callee *types.Func, recv *
 		old := s.next
 		s.next = fr.vc.declare("next", "Int")
 		s.assume(fmt.Sprintf("(>= %s %s)", s.next, old))
+		if rh := fr.eng.resultHeaps(sig); len(rh) > 0 {
+			fr.extendHeaps(s, rh, old)
+		}
 	}
 	// results
 	var results []*Val
@@ -241,7 +250,7 @@ func (e *Engine) staticType(x ast.Expr, c *Contract, f *types.Func) (types.Type,
 func (fr *Frame) havocDesignator(s, pre *State, c *Contract, f *types.Func, d string, names map[string]*Val, cpkg *types.Package) error {
 	d = strings.TrimSpace(d)
 	if d == "all" {
-		s.havocAll()
+		fr.havocEverything(s)
 		return nil
 	}
 	if strings.HasPrefix(d, "heap(") || d == "big" || strings.HasPrefix(d, "mapof(") {
@@ -382,6 +391,7 @@ func (e *Engine) verifyFunc(c *Contract) *VC {
 		}
 	}
 	fr.initResults(s, fi.Decl.Type)
+	fr.assumeGlobalInvs(s)
 	fr.entry = s.clone()
 	vc.replayFn = fi
 	// package-level variables of the function's package are inputs too (scalars only)
@@ -447,6 +457,17 @@ func (e *Engine) verifyFunc(c *Contract) *VC {
 	}
 	if vc.failed != nil {
 		return vc
+	}
+	// frame: nothing outside `assigns` changes
+	if c.HasFrame || c.Pure {
+		ex, err := fr.frameExemptions(c, fi.Obj, entryNames, fr.entry)
+		if err != nil {
+			vc.failed = fmt.Errorf("%s: assigns: %v", c.Key, err)
+			return vc
+		}
+		for ri, r := range fr.returns {
+			fr.checkFrame(c, ex, r.s, ri)
+		}
 	}
 	// postconditions at every return
 	for ri, r := range fr.returns {
